@@ -175,7 +175,7 @@ def run(c, rng, build, nmut):
                 else:
                     exp = f"(XHandle {cnat(len(keep) + (res['h'] - len(rows)))})"
             else: raise OutOfModel("non-unit result")
-            dec_cases.append(f"({clist(extra)}, {term}, {exp})"); meta.append((label, doc, res))
+            dec_cases.append(f"({cnat(len(extra))}, {term}, {exp})"); meta.append((label, doc, res))
         except OutOfModel:
             skipped += 1
         if "new" in res and not isinstance(res["new"]["p"], dict):
@@ -187,16 +187,17 @@ def run(c, rng, build, nmut):
         files[f"Run_codec_dec_{k // shard}"] = (regdef +
             "Inductive expected := XHandle (h : nat) | XNew (u : unit3) | XKeyError | XOtherError.\n"
             "Definition unit_eqb (a b : unit3) : bool := ukey_eqb a b && feqb (udim a) (udim b).\n"
-            "Definition ok (c : list unit3 * json * expected) : bool :=\n"
-            "  let '(x, doc, e) := c in let r := with_extra x in\n"
+            f"Definition extra_all : list unit3 := {clist(extra)}.\n"
+            "Definition ok (c : nat * json * expected) : bool :=\n"
+            "  let '(k, doc, e) := c in let r := with_extra (firstn k extra_all) in\n"
             "  match dec_unit r doc, e with\n"
             "  | DOk (t, h), XHandle h' => Nat.eqb h h' && Nat.eqb (length t) (length (c_tbl r))\n"
             "  | DOk (t, h), XNew u => Nat.eqb h (length (c_tbl r)) && match nth_error t h with Some v => unit_eqb u v | None => false end\n"
             "  | DKeyError, XKeyError => true\n"
             "  | DOutOfModel, _ => true\n"
             "  | _, _ => false end.\n"
-            "Definition modelled (c : list unit3 * json * expected) : bool := let '(x, doc, e) := c in match dec_unit (with_extra x) doc with DOutOfModel => false | _ => true end.\n"
-            f"Definition cases : list (list unit3 * json * expected) := {clist(dec_cases[k:k + shard])}.\n"
+            "Definition modelled (c : nat * json * expected) : bool := let '(k, doc, e) := c in match dec_unit (with_extra (firstn k extra_all)) doc with DOutOfModel => false | _ => true end.\n"
+            f"Definition cases : list (nat * json * expected) := {clist(dec_cases[k:k + shard])}.\n"
             "Definition mm := Eval vm_compute in map fst (filter (fun ic => negb (ok (snd ic))) (combine (seq 0 (length cases)) cases)).\nPrint mm.\n"
             "Definition nmodelled := Eval vm_compute in length (filter modelled cases).\nPrint nmodelled.\n"
             "Lemma run_agrees : mm = [].\nProof. vm_compute. reflexivity. Qed.\n")
